@@ -8,7 +8,7 @@ wt=/tmp/verif_msys_$name
 export GOFLAGS=-mod=mod GOPROXY=off GOSUMDB=off GOTOOLCHAIN=local
 git -C /repo worktree remove --force $wt 2>/dev/null || true
 git -C /repo worktree add --detach $wt HEAD >/dev/null 2>&1
-trap 'git -C /repo worktree remove --force $wt 2>/dev/null; git -C /repo worktree prune' EXIT
+trap 'git -C /repo worktree remove --force $wt 2>/dev/null' EXIT
 ( cd $wt && git apply /verif/mutants/$name.diff )
 ( cd $wt && go build ./... )
 gt="-"
